@@ -168,7 +168,19 @@ func VerifH_C14_import() {
 
 	preB := append([]wire.BlockHeader(nil), bs.hdrs...)
 	preF := append([]chainhash.Hash(nil), fs.hashes...)
+	// a crash leaves the stores as they are at some instant between two
+	// store-level operations (C08): the filter chain must never be ahead of
+	// the block chain at any of them (unless it already was before)
+	aheadAtSomeInstant := false
+	watch := func() {
+		if len(fs.hashes) > len(bs.hdrs) && len(fs.hashes) > len(preF) {
+			aheadAtSomeInstant = true
+		}
+	}
+	bs.onMutate, fs.onMutate = watch, watch
 	_, err := imp.Import(context.Background())
+	bs.onMutate, fs.onMutate = nil, nil
+	vpAssert(!aheadAtSomeInstant, "filter-store-never-grows-ahead-of-block-store-at-any-instant")
 	ctl.failAt = 0
 
 	fileEnd := start + count - 1
